@@ -423,12 +423,15 @@ fn failspot_by_name(n: &str) -> Option<FailSpotName> {
 }
 
 fn prefix_facts(dest: &RecDest, last_only: bool) -> Vec<Value> {
-    let start = dest.start as usize;
+    // positions inside the destination's window (see RecDest::base)
+    let start = dest.rel(dest.start);
     let mut out = Vec::new();
     let mut hi = start;
     for k in 0..dest.calls.len() {
         if let Call::Write { pos, data } = &dest.calls[k] {
-            hi = hi.max(*pos as usize + data.len());
+            if *pos >= dest.base {
+                hi = hi.max(dest.rel(*pos) + data.len());
+            }
         }
         if last_only && k + 1 < dest.calls.len() {
             continue;
@@ -709,7 +712,7 @@ pub fn worker_main(scn: &Value, report: &Value, shared_path: Option<String>, out
                 let mut rec = json!({"ev":"dump","dump_no":dump_no,"wall_s":wall,"writer":winfo.clone(),"supplied":supplied.clone(),
                                      "opts": {"size_limit": wopts.get("size_limit"), "sanitize": writer.sanitize_stack, "skip": writer.skip_stacks_if_mapping_unreferenced,
                                               "crash_context": writer.crash_context.is_some()}});
-                let dcalls = crate::dirops::calls_json(&dest_inner.calls);
+                let dcalls = crate::dirops::calls_json_at(&dest_inner.calls, dest_inner.base);
                 let mut allsteps = steps;
                 for (c, s) in dcalls.iter().zip(seqs.iter()) {
                     allsteps.push(json!({"k":"dest","c":c,"seq":s}));
@@ -717,8 +720,8 @@ pub fn worker_main(scn: &Value, report: &Value, shared_path: Option<String>, out
                 allsteps.sort_by_key(|s| s["seq"].as_u64().unwrap_or(0));
                 rec["steps"] = json!(allsteps);
                 rec["ncalls"] = json!(dest_inner.calls.len());
-                rec["pre_len"] = json!(pre_len);
-                rec["start"] = json!(start);
+                rec["pre_len"] = json!((pre_len as u64).saturating_sub(dest_inner.base));
+                rec["start"] = json!(start - dest_inner.base);
                 let image: Option<Vec<u8>> = match &res {
                     Ok(Ok(img)) => {
                         rec["outcome"] = json!("ok");
